@@ -9,4 +9,4 @@ Extraction Language OCaml.
 
 Definition mk_qc (n : Z) (d : positive) : Qc := Q2Qc (Qmake n d).
 
-Extraction "ocaml/partrav.ml" visited visited_with pa_run par_loops_of mk_qc.
+Extraction "_build/partrav.ml" visited visited_with pa_run par_loops_of mk_qc.
